@@ -14,3 +14,4 @@ import Oas3Model.Props.C17
 import Oas3Model.Props.C15
 import Oas3Model.Props.C13
 import Oas3Model.Props.C14
+import Oas3Model.Props.C16
